@@ -7,6 +7,8 @@ use std::ops::Deref;
 
 #[path = "../fixtures/w12.rs"]
 mod fx;
+#[path = "../fixtures/w12_cst.rs"]
+mod cst;
 
 pub const NAME: &str = "utxo";
 
@@ -182,6 +184,24 @@ pub fn generate(g: &mut Gen) {
         for i in 0..rb.bodies.len().min(lim) {
             for flag in [true, false] {
                 if let Some(t) = fx::standalone_tx(&bytes, &rb, i, flag) { let n = count_outputs(&t, era); g.case(ops_for(era, &t, n)); }
+            }
+        }
+    }
+    // 2b. systematic single-site encoding mutants (def<->indef incl. empty containers, head widths)
+    //     of small corpus transactions that pallas still decodes
+    {
+        let mut rng = g.rng.fork();
+        let mut n_tx = 0;
+        for (name, bytes) in fx::hex_files("tx") {
+            let Some(era) = fx::era_kind_of_name(&name) else { continue };
+            if era == "byron" || bytes.len() > (if g.thorough() { 12_000 } else { 2_500 }) { continue; }
+            n_tx += 1;
+            if !g.thorough() && n_tx > 20 { break; }
+            let e = era_of(era).unwrap();
+            for kind in [0usize, 1, 2, 7] {
+                for m in cst::single_site_mutants(&bytes, kind, if g.thorough() { 40 } else { 6 }, &mut rng) {
+                    if MultiEraTx::decode_for_era(e, &m).is_ok() { let n = count_outputs(&m, era); g.case(ops_for(era, &m, n)); }
+                }
             }
         }
     }
